@@ -4,11 +4,14 @@
 From Syz Require Export Coll.
 Open Scope N_scope.
 
+(* linear-time reversal for the protocol plumbing (List.rev is quadratic) *)
+Definition frev {A} (l : list A) : list A := rev_append l [].
+
 (* ---------- tokens ---------- *)
 
 Fixpoint tokenize (cs : list N) (cur : option N) (acc : list N) : list N :=
   match cs with
-  | [] => rev (match cur with Some n => n :: acc | None => acc end)
+  | [] => frev (match cur with Some n => n :: acc | None => acc end)
   | c :: r =>
       if (48 <=? c) && (c <=? 57)
       then tokenize r (Some (match cur with Some n => n * 10 + (c - 48) | None => c - 48 end)) acc
@@ -22,7 +25,7 @@ Definition show_line (l : list N) : list N :=
 
 Fixpoint take_n (n : nat) (l : list N) (acc : list N) : option (list N * list N) :=
   match n with
-  | O => Some (rev acc, l)
+  | O => Some (frev acc, l)
   | S k => match l with [] => None | x :: r => take_n k r (x :: acc) end
   end.
 
@@ -42,7 +45,7 @@ Definition rd_payload (l : list N) : option (bytes * list N) :=
 
 Fixpoint rd_streams (n : nat) (l : list N) (acc : list stream) : option (list stream * list N) :=
   match n with
-  | O => Some (rev acc, l)
+  | O => Some (frev acc, l)
   | S k =>
       match l with
       | sid :: r => match rd_payload r with
@@ -263,14 +266,14 @@ Definition run_op (s : sf) (l : list N) : option (list N * sf * list N) :=
 
 Fixpoint run_ops (fuel : nat) (s : sf) (l : list N) (out_rev : list (list N)) : list (list N) :=
   match l with
-  | [] => rev out_rev
+  | [] => frev out_rev
   | _ =>
       match fuel with
-      | O => rev ([999] :: out_rev)
+      | O => frev ([999] :: out_rev)
       | S f =>
           match run_op s l with
           | Some (out, s', r) => run_ops f s' r (out :: out_rev)
-          | None => rev ([998] :: out_rev)
+          | None => frev ([998] :: out_rev)
           end
       end
   end.
@@ -288,5 +291,178 @@ Definition run_store (toks : list N) : list N :=
 Definition oracle_main (input : list N) : list N :=
   match tokenize input None [] with
   | 1 :: toks => run_store toks
+  | _ => show_line [997]
+  end.
+
+(* ---------- engine 2: filters ---------- *)
+From Syz Require Import QEval.
+
+Fixpoint rd_jv (fuel : nat) (l : list N) : option (jv * list N) :=
+  match fuel with
+  | O => None
+  | S f =>
+      match l with
+      | 0 :: r => Some (JNull, r)
+      | 1 :: b :: r => Some (JBool (negb (b =? 0)), r)
+      | 2 :: bits :: r => Some (JNum bits, r)
+      | 3 :: r => match rd_bytes r with Some (s, r') => Some (JStr s, r') | None => None end
+      | 4 :: n :: r =>
+          (fix go (k : nat) (r : list N) (acc : list jv) : option (jv * list N) :=
+             match k with
+             | O => Some (JArr (frev acc), r)
+             | S k' => match rd_jv f r with Some (v, r') => go k' r' (v :: acc) | None => None end
+             end) (N.to_nat n) r []
+      | 5 :: n :: r =>
+          (fix go (k : nat) (r : list N) (acc : list (bytes * jv)) : option (jv * list N) :=
+             match k with
+             | O => Some (JObj (frev acc), r)
+             | S k' =>
+                 match rd_bytes r with
+                 | Some (key, r1) =>
+                     match rd_jv f r1 with Some (v, r') => go k' r' ((key, v) :: acc) | None => None end
+                 | None => None
+                 end
+             end) (N.to_nat n) r []
+      | _ => None
+      end
+  end.
+
+Fixpoint rd_pf_table (n : nat) (l : list N) (acc : list (bytes * option N)) : option (list (bytes * option N) * list N) :=
+  match n with
+  | O => Some (acc, l)
+  | S k =>
+      match rd_bytes l with
+      | Some (lit, ok :: bits :: r) => rd_pf_table k r ((lit, if ok =? 0 then None else Some bits) :: acc)
+      | _ => None
+      end
+  end.
+
+Fixpoint rd_re_table (n : nat) (l : list N) (acc : list (bytes * bytes * option bool))
+  : option (list (bytes * bytes * option bool) * list N) :=
+  match n with
+  | O => Some (acc, l)
+  | S k =>
+      match rd_bytes l with
+      | Some (pat, r1) =>
+          match rd_bytes r1 with
+          | Some (subj, res :: r2) =>
+              rd_re_table k r2 ((pat, subj, if res =? 2 then None else Some (res =? 1)) :: acc)
+          | _ => None
+          end
+      | None => None
+      end
+  end.
+
+Definition pf_of (tbl : list (bytes * option N)) (lit : bytes) : option N :=
+  match find (fun e => bytes_eqb (fst e) lit) tbl with Some (_, v) => v | None => None end.
+
+Definition re_of (tbl : list (bytes * bytes * option bool)) (pat subj : bytes) : option bool :=
+  match find (fun e => bytes_eqb (fst (fst e)) pat && bytes_eqb (snd (fst e)) subj) tbl with
+  | Some (_, v) => v
+  | None => None
+  end.
+
+Fixpoint rd_docs (n : nat) (l : list N) (acc : list (option jv)) : option (list (option jv) * list N) :=
+  match n with
+  | O => Some (frev acc, l)
+  | S k =>
+      match l with
+      | 0 :: r => rd_docs k r (None :: acc)
+      | 1 :: r => match rd_jv 200 r with Some (v, r') => rd_docs k r' (Some v :: acc) | None => None end
+      | _ => None
+      end
+  end.
+
+Definition show_lit (v : lit) : list N :=
+  match v with
+  | LNull => [0]
+  | LBool b => [1; if b then 1 else 0]
+  | LNum n => [2; n]
+  | LStr s => 3 :: blen s :: s
+  end.
+
+Fixpoint show_node (n : node) : list N :=
+  match n with
+  | NExpr op l r =>
+      1 :: blen op :: op ++ (match l with Some ln => 1 :: show_node ln | None => [0] end) ++ show_node r
+  | NIdent name => 2 :: blen name :: name
+  | NVal v => 3 :: show_lit v
+  | NFunc name args => 4 :: blen name :: name ++ N.of_nat (length args) :: flat_map show_node args
+  | NParam name => 5 :: blen name :: name
+  | NArr els => 6 :: N.of_nat (length els) :: flat_map show_node els
+  end.
+
+Definition run_filter (toks : list N) : list N :=
+  match rd_bytes toks with
+  | Some (text, npf :: r1) =>
+      match rd_pf_table (N.to_nat npf) r1 [] with
+      | Some (pft, nre :: r2) =>
+          match rd_re_table (N.to_nat nre) r2 [] with
+          | Some (ret, nd :: r3) =>
+              match rd_docs (N.to_nat nd) r3 [] with
+              | Some (docs, _) =>
+                  let toks_line :=
+                      match lex_all (S (length text)) text with
+                      | Some ts => 1 :: N.of_nat (length ts)
+                                   :: flat_map (fun t => ttype_code (ttyp t) :: blen (tlit t) :: tlit t) ts
+                      | None => [1; 999]
+                      end in
+                  let ast := parse (pf_of pft) text in
+                  let ast_line :=
+                      match ast with
+                      | POk n => 2 :: 0 :: show_node n
+                      | PErr => [2; 1]
+                      | PFuel => [2; 3]
+                      end in
+                  let verdict_line :=
+                      match ast with
+                      | POk n => 3 :: N.of_nat (length docs)
+                                 :: map (fun d => match apply_filter (re_of ret) n d with
+                                                  | Some true => 1 | Some false => 0 | None => 2 end) docs
+                      | _ => [3; 9]
+                      end in
+                  show_line toks_line ++ show_line ast_line ++ show_line verdict_line
+              | None => show_line [996]
+              end
+          | _ => show_line [996]
+          end
+      | _ => show_line [996]
+      end
+  | _ => show_line [996]
+  end.
+
+Definition oracle_main2 (input : list N) : list N :=
+  match tokenize input None [] with
+  | 1 :: toks => run_store toks
+  | 2 :: toks => run_filter toks
+  | _ => show_line [997]
+  end.
+
+(* batch: 3 ncases {count tokens...}: each case is a complete engine input *)
+Fixpoint run_batch (n : nat) (l : list N) (acc : list N) : list N :=
+  match n with
+  | O => acc
+  | S k =>
+      match l with
+      | cnt :: r =>
+          match take_n (N.to_nat cnt) r [] with
+          | Some (case, r') =>
+              let out := match case with
+                         | 1 :: toks => run_store toks
+                         | 2 :: toks => run_filter toks
+                         | _ => show_line [997]
+                         end in
+              run_batch k r' (acc ++ out ++ show_line [777])
+          | None => acc ++ show_line [995]
+          end
+      | [] => acc ++ show_line [995]
+      end
+  end.
+
+Definition oracle_main3 (input : list N) : list N :=
+  match tokenize input None [] with
+  | 1 :: toks => run_store toks
+  | 2 :: toks => run_filter toks
+  | 3 :: n :: toks => run_batch (N.to_nat n) toks []
   | _ => show_line [997]
   end.
